@@ -200,16 +200,29 @@ func ruleKeyUpdate(c *Ctx, r *Report) {
 	const rule6 = "ack-epoch-bound"
 	if hr := c.need(r, rule6, "(*dtls.Conn).handleRecordContent"); hr != nil {
 		r.Sites += len(hr.Blocks)
+		// the ACK case looks at the epoch of the ACK record and at the epoch of each acknowledged record
 		var cmp *ssa.BinOp
+		hdrCmp, recCmp := false, false
 		for _, b := range hr.Blocks {
 			for _, in := range b.Instrs {
-				if bo, ok := in.(*ssa.BinOp); ok && (bo.Op == token.LEQ || bo.Op == token.GTR || bo.Op == token.LSS || bo.Op == token.GEQ) {
-					x, y := shapeOf(bo.X, 0), shapeOf(bo.Y, 0)
-					if strings.Contains(x+y, "Epoch") && (strings.Contains(x, "header.Epoch") || strings.Contains(y, "header.Epoch")) {
+				if bo, ok := in.(*ssa.BinOp); ok {
+					switch bo.Op {
+					case token.EQL, token.NEQ, token.LEQ, token.GTR, token.LSS, token.GEQ:
+					default:
+						continue
+					}
+					if isFieldLoad(bo.X, "pkg/protocol/recordlayer.Header", "Epoch") || isFieldLoad(bo.Y, "pkg/protocol/recordlayer.Header", "Epoch") {
+						hdrCmp = true
 						cmp = bo
+					}
+					if isFieldLoad(stripConv(bo.X), "pkg/protocol.RecordNumber", "Epoch") || strings.Contains(shapeOf(bo.X, 0), ".Epoch") && strings.Contains(typeShort(bo.X.Type()), "uint64") {
+						recCmp = true
 					}
 				}
 			}
+		}
+		if !hdrCmp || !recCmp {
+			cmp = nil
 		}
 		// the Records handed on must not be a plain copy of the received list
 		plain := false
